@@ -167,6 +167,7 @@ type frame struct {
 	bounds map[string]ival
 	ranges *rangeEnv
 	symc   map[string]*Val
+	topFC  *FuncContract // contract of the function under proof (inherited by inlined frames)
 }
 
 type deferred struct {
@@ -1354,9 +1355,15 @@ func (f *frame) callModifies(cc *ssa.CallCommon, keys *modSet, seen map[*ssa.Fun
 	case *ssa.MakeClosure:
 		return f.funcModifies(callee.Fn.(*ssa.Function), nil, keys, seen, depth, false)
 	}
-	// call of a function value: callback protocol — modifies only its ghost log
-	if p, ok := cc.Value.(*ssa.Parameter); ok {
-		keys.add("LOG:"+p.Name(), nil)
+	// call of a function-typed parameter: callback protocol — modifies only its ghost logs and ok flag
+	if _, ok := cc.Value.(*ssa.Parameter); ok {
+		fc := f.topContract()
+		if fc != nil {
+			for _, cb := range fc.Callbacks {
+				keys.add(f.e.regKey(cbLogKey(cb.Log), f.e.cbLogSort()), nil)
+			}
+		}
+		keys.add(f.e.regKey(cbOKKey, f.e.cbOKSort()), nil)
 		return false
 	}
 	return true
@@ -1376,6 +1383,17 @@ func (f *frame) funcModifies(callee *ssa.Function, args []ssa.Value, keys *modSe
 		}
 		for _, ln := range modifiedLogs(fc) {
 			keys.add(f.e.regKey("LOG:"+ln, f.e.Sorts.SeqOf(f.e.Sorts.Str)), nil)
+		}
+		if len(modifiedCallbacks(fc)) > 0 {
+			for _, k := range sortedKeys(f.e.keySort) {
+				if strings.HasPrefix(k, "CBLOG:") {
+					keys.add(k, nil)
+				}
+			}
+			for _, cb := range fc.Callbacks {
+				keys.add(f.e.regKey(cbLogKey(cb.Log), f.e.cbLogSort()), nil)
+			}
+			keys.add(f.e.regKey(cbOKKey, f.e.cbOKSort()), nil)
 		}
 		for _, ml := range mls {
 			ks, err := f.e.modKeys(callee, ml)
